@@ -335,8 +335,9 @@ func c01Machine(c *Ctx, cfg listCfg) *Machine[*listInst] {
 			}
 			return out
 		},
-		Observe: func(in *listInst) { observeAll(in.s) },
-		Key:     func(in *listInst) string { return stackKey(in.s) },
+		NoopProbeDepth: 1,
+		Observe:        func(in *listInst) { observeAll(in.s) },
+		Key:            func(in *listInst) string { return stackKey(in.s) },
 	}
 }
 
